@@ -18,10 +18,15 @@ RULE = ("scenes from the seed, each built in all three cyclic orientations throu
         "rotated) with CW or pulse profile, FieldDetector and PoyntingFluxDetector without exact interpolation "
         "(sub-boxes, reduce_volume on/off, keep_all_components, fixed_propagation_axis), materials overwritten by "
         "rotated random arrays (isotropic, diagonal, or full 9-component tensors rotated as R T R^T; optional sigma_E / "
-        "sigma_H, incl. full 9-component conductivity tensors with all off-diagonals non-zero next to full inv_eps / inv_mu) or placed as UniformMaterialObject boxes with diagonal/full tensors. "
+        "sigma_H, incl. full 9-component conductivity tensors with all off-diagonals non-zero next to full inv_eps / inv_mu) or built through the public Material API and placed as UniformMaterialObject boxes (no overwrite): "
+        "diagonal permittivity/permeability, conductivities given as 3-tuple / 9-tuple / nested tuple with a SINGLE non-zero "
+        "component (one diagonal entry, or a lone off-diagonal entry), full tensors rotated as R T R^T; the placed material "
+        "arrays themselves (allocation, shape, values) are compared across orientations too. "
         "The quick tier forces: a scene with PML on an axis pair, a '+' uniform plane source + electric dipole, full inv_eps "
         "AND full sigma_E; a scene with one-sided PML + PEC/PMC + '-' Gaussian plane source + dipole, full inv_mu AND full "
-        "sigma_H; a PML-free diagonal-tier scene with walls (compared with the model). Oracle: max |rot^-r(result_r) "
+        "sigma_H; a PML-free scene with Material-API boxes in the diagonal tier with lone diagonal sigma_E / sigma_H entries (compared "
+        "with the model on the arrays place_objects produced); a tiny scene with full-tensor Materials with a lone "
+        "off-diagonal entry in permittivity, sigma_E, sigma_H. Oracle: max |rot^-r(result_r) "
         "- result_0| <= 1e-9 * max|result| for E, H and every raw record (run_fdtd resets the fields, so levels are set by the sources). K: forward() of each orientation of "
         "PML-free scenes (tiers <= 3) vs model fwd / rotfwd, Poynting record vs rotpoynting. non-trivial = every scene "
         "(all have sources and a non-cubic shape or distinct faces).")
@@ -70,12 +75,19 @@ def rot_case(c):
     for b in c["boxes"]:
         t = dict(b)
         t["lo"], t["size"] = rl(b["lo"]), rl(b["size"])
-        T = np.asarray(b["eps"], dtype=np.float64).reshape(3, 3)
-        t["eps"] = T[[2, 0, 1]][:, [2, 0, 1]].reshape(-1).tolist()
+        for key in ("eps", "mu", "sig_e", "sig_h"):
+            if b.get(key) is not None:
+                t[key] = rot9(b[key])
         boxes.append(t)
     d["boxes"] = boxes
     d["orientation"] = c.get("orientation", 0) + 1
     return d
+
+
+def rot9(v):
+    """row-major 3x3 tensor (xx, xy, xz, yx, …) of a material → relabelled tensor R T R^T (entry (a,b) moves to (a+1,b+1))"""
+    T = np.asarray(v, dtype=np.float64).reshape(3, 3)
+    return T[[2, 0, 1]][:, [2, 0, 1]].reshape(-1).tolist()
 
 
 def rot_vec(A):
@@ -129,10 +141,11 @@ def gen_case(rng, thorough, force=None):
             kappa[k] = rng.choice([1.0, 1.0, 2.5]) if kind == "pml" else 1.0
             if kind == "pml":
                 tsum += thick[k]
-        shape.append(rng.randint(max(4, tsum + 2), 8))
+        shape.append(rng.randint(max(4, tsum + 2), max(force.get("max_n", 8), tsum + 2, 4)))
     # make the shape non-cubic so that a transposition of the transverse axes cannot hide
     if shape[0] == shape[1] == shape[2]:
-        shape[rng.randint(0, 2)] = 8 if shape[0] != 8 else 7
+        top = force.get("max_n", 8)
+        shape[rng.randint(0, 2)] = top if shape[0] != top else top - 1
     c["shape"], c["faces"], c["thick"], c["kappa"] = shape, faces, thick, kappa
     c["widths"] = None
     if force.get("nonuniform", rng.chance(0.3)):
@@ -206,22 +219,53 @@ def gen_case(rng, thorough, force=None):
     c["sig_h"] = c["sig_h_full"] or (c["mu_tier"] != 9 and rng.chance(0.25))
     boxes = []
     if c["mat_mode"] == "boxes":
-        for _ in range(rng.choice([1, 2])):
-            size = [rng.randint(1, max(1, n - 2)) for n in shape]
+        # materials through the PUBLIC Material API (no array overwrite): exercises the classification predicates
+        # (is_*_conductive, is_magnetic, isotropic/diagonal/full tiers) and the array allocation of place_objects
+        specs = force.get("boxes") or [rng.choice(["diag_sig_e", "diag_sig_h", "diag", "full_eps", "full_sig_e", "full_sig_h", "full"])
+                                       for _ in range(rng.choice([1, 2, 3]))]
+        if has_plane:
+            specs = [sp for sp in specs if not sp.startswith("full")] or ["diag_sig_e"]
+        for sp in specs:
+            size = [rng.randint(2, max(2, n - 1)) for n in shape]
             lo = [rng.randint(0, n - sz) for n, sz in zip(shape, size)]
-            full = (not has_plane) and rng.chance(0.4)
+            crosses = any(s["kind"] in ("uniform", "gauss") and lo[s["axis"]] <= s["pos"][s["axis"]] < lo[s["axis"]] + size[s["axis"]]
+                          for s in srcs)
             d = [rng.uniform(1.5, 4.0) for _ in range(3)]
-            # plane sources refuse an anisotropic medium on their own plane at placement: boxes crossing it are isotropic
-            if any(s["kind"] in ("uniform", "gauss") and lo[s["axis"]] <= s["pos"][s["axis"]] < lo[s["axis"]] + size[s["axis"]]
-                   for s in srcs):
-                d = [d[0], d[0], d[0]]
-            T = np.diag(d)
-            if full:
+            m = [rng.uniform(1.0, 2.5) for _ in range(3)]
+            if crosses:      # plane sources refuse an anisotropic medium on their own plane at placement
+                d, m = [d[0]] * 3, [m[0]] * 3
+            b = {"lo": lo, "size": size, "spec": sp, "eps": np.diag(d).reshape(-1).tolist(), "mu": None, "sig_e": None,
+                 "sig_h": None, "form": rng.choice(["3", "9", "nested"])}
+            lone = rng.randint(0, 2)                       # which diagonal entry carries the ONLY non-zero conductivity
+            off = rng.choice([(0, 1), (0, 2), (1, 0), (1, 2), (2, 0), (2, 1)])   # lone off-diagonal entry
+
+            def single(idx, val):
+                T = np.zeros((3, 3))
+                T[idx] = val
+                return T.reshape(-1).tolist()
+            if sp == "diag_sig_e":
+                b["sig_e"] = single((lone, lone), rng.uniform(0.01, 0.03))
+            elif sp == "diag_sig_h":
+                b["mu"] = np.diag(m).reshape(-1).tolist()
+                b["sig_h"] = single((lone, lone), rng.uniform(1.0e3, 3.0e3))
+            elif sp == "full_eps":
+                T = np.diag(d)
+                T[off] = rng.uniform(0.2, 0.5) * rng.choice([-1.0, 1.0])
+                b["eps"] = T.reshape(-1).tolist()
+            elif sp == "full_sig_e":
+                b["sig_e"] = single(off, rng.uniform(0.01, 0.03))
+            elif sp == "full_sig_h":
+                b["mu"] = np.diag(m).reshape(-1).tolist()
+                b["sig_h"] = single(off, rng.uniform(1.0e3, 3.0e3))
+            elif sp == "full":
+                T = np.diag(d)
                 o = [rng.uniform(-0.4, 0.4) for _ in range(3)]
                 T[0, 1] = T[1, 0] = o[0]
                 T[0, 2] = T[2, 0] = o[1]
                 T[1, 2] = T[2, 1] = o[2]
-            boxes.append({"lo": lo, "size": size, "eps": T.reshape(-1).tolist(), "full": full})
+                b["eps"] = T.reshape(-1).tolist()
+                b["sig_e"] = single((lone, lone), rng.uniform(0.01, 0.03))
+            boxes.append(b)
     c["boxes"] = boxes
     c["init_fields"] = force.get("init_fields", rng.chance(0.7))
     c["steps"] = rng.randint(4, 12 if thorough else 9)
@@ -273,13 +317,24 @@ def build(c):
         margins = tuple(float(np.sum(c["widths"][a][:l])) for a, l in zip(axes, lo))
         return o.place_relative_to(vol, axes=tuple(axes), own_positions=tuple(-1.0 for _ in axes),
                                    other_positions=tuple(-1.0 for _ in axes), margins=margins)
+    def prop(v9, form):
+        """a tensor property in the form the user would write it: 3-tuple when diagonal, 9-tuple / nested tuple otherwise"""
+        T = np.asarray(v9, dtype=np.float64).reshape(3, 3)
+        diagonal = not np.any(T - np.diag(np.diag(T)))
+        if diagonal and form == "3":
+            return (float(T[0, 0]), float(T[1, 1]), float(T[2, 2]))
+        if form == "nested":
+            return tuple(tuple(float(x) for x in row) for row in T)
+        return tuple(float(x) for x in T.reshape(-1))
     for i, b in enumerate(c["boxes"]):
-        T = np.asarray(b["eps"]).reshape(3, 3)
-        if b["full"]:
-            perm = tuple(tuple(float(x) for x in row) for row in T)
-        else:
-            perm = (float(T[0, 0]), float(T[1, 1]), float(T[2, 2]))
-        o = f.UniformMaterialObject(partial_grid_shape=tuple(b["size"]), material=f.Material(permittivity=perm), name=f"box{i}")
+        kwm = {"permittivity": prop(b["eps"], b.get("form", "3"))}
+        if b.get("mu") is not None:
+            kwm["permeability"] = prop(b["mu"], b.get("form", "3"))
+        if b.get("sig_e") is not None:
+            kwm["electric_conductivity"] = prop(b["sig_e"], b.get("form", "3"))
+        if b.get("sig_h") is not None:
+            kwm["magnetic_conductivity"] = prop(b["sig_h"], b.get("form", "3"))
+        o = f.UniformMaterialObject(partial_grid_shape=tuple(b["size"]), material=f.Material(**kwm), name=f"box{i}")
         objs.append(o)
         cs.append(place(o, (0, 1, 2), b["lo"]))
     for i, s in enumerate(c["sources"]):
@@ -398,7 +453,26 @@ def run_orientation(c, a):
     for i, q in enumerate(c["detectors"]):
         st = out.detector_states[f"det{i}"]
         res[f"det{i}"] = np.asarray(st["fields" if q["kind"] == "field" else "poynting_flux"])
+    res["mats"] = container_mats(arrays)
     return sc, arrays, res
+
+
+def container_mats(arrays):
+    """material arrays of a container as numpy (None where not allocated; a scalar inv_mu becomes a 0-d array)"""
+    out = {}
+    for key, attr in (("inv_eps", "inv_permittivities"), ("inv_mu", "inv_permeabilities"), ("sig_e", "electric_conductivity"),
+                      ("sig_h", "magnetic_conductivity")):
+        v = getattr(arrays, attr)
+        out[key] = None if v is None else np.asarray(v, dtype=np.float64)
+    return out
+
+
+def unrot_mat(A, r):
+    if A is None or A.ndim == 0:
+        return A
+    for _ in range((3 - r) % 3):
+        A = rot_arr(A)
+    return A
 
 
 def back_record(q, rec, r):
@@ -432,6 +506,19 @@ def compare(c0, results):
         rr = results[r]
         if rr["t"] != r0["t"] or rr["steps_total"] != r0["steps_total"]:
             return f"orientation {r}: {rr['t']}/{rr['steps_total']} steps vs {r0['t']}/{r0['steps_total']}"
+        # the placed material arrays themselves (allocation and values): Material → array path of place_objects
+        for key in ("inv_eps", "inv_mu", "sig_e", "sig_h"):
+            a, b = r0["mats"][key], unrot_mat(rr["mats"][key], r)
+            if (a is None) != (b is None):
+                return (f"orientation {r}: material array {key} is {'not ' if b is None else ''}allocated, but "
+                        f"{'not ' if a is None else ''}allocated in orientation 0")
+            if a is None:
+                continue
+            if a.shape != b.shape:
+                return f"orientation {r}: material array {key} has shape {b.shape} (rotated back) vs {a.shape}"
+            e = float(np.max(np.abs(a - b))) / max(1e-300, float(np.max(np.abs(a))))
+            if e > 1e-9:
+                return f"orientation {r}: material array {key} (rotated back) differs from orientation 0 by {e:.3e}"
         for name in ("E", "H"):
             b = unrot_vec(rr[name], r)
             if b.shape != r0[name].shape:
@@ -480,9 +567,11 @@ def property_fails(c0):
 
 
 # ----------------------------------------------------------------------------------------------- K vs model
-def model_ok(c):
-    return (not any(v == "pml" for v in c["faces"].values())) and c["eps_tier"] != 9 and c["mu_tier"] != 9 \
-        and c["mat_mode"] == "arrays"
+def model_ok(c, results):
+    """no PML and every material array of the placed/overwritten container in the diagonal tier"""
+    if any(v == "pml" for v in c["faces"].values()):
+        return False
+    return all(v is None or v.ndim == 0 or v.shape[0] <= 3 for v in results[0]["mats"].values())
 
 
 def k_model(ctx, c0, per):
@@ -497,11 +586,15 @@ def k_model(ctx, c0, per):
         nx, ny, nz = c["shape"]
         E = a["E"] if a["E"] is not None else np.zeros((3, nx, ny, nz))
         H = a["H"] if a["H"] is not None else np.zeros((3, nx, ny, nz))
-        inv_mu = 1.0 if a["inv_mu"] is None else a["inv_mu"]
+        # materials as they are in the container (overwritten arrays, or what place_objects made of the Material objects)
+        m = container_mats(arrays)
+        inv_mu = 1.0 if m["inv_mu"] is None else (float(m["inv_mu"]) if m["inv_mu"].ndim == 0 else m["inv_mu"])
+        a = dict(a, inv_eps=m["inv_eps"], sig_e=m["sig_e"], sig_h=m["sig_h"])
         t = 1
         st = Y.impl_forward(sc, arrays, t=t, n=1)
         E1, H1 = np.asarray(st[1].fields.E), np.asarray(st[1].fields.H)
-        zero = Y.with_state(sc, np.zeros_like(E), np.zeros_like(H), a["inv_eps"], a["inv_mu"], a["sig_e"], a["sig_h"])
+        # same container (overwritten or placed materials), fields zeroed: probes the additive source terms
+        zero = arrays.aset("fields->E", jnp.zeros_like(arrays.fields.E)).aset("fields->H", jnp.zeros_like(arrays.fields.H))
         tt = jnp.asarray(t, dtype=jnp.int32)
         jE = np.asarray(update_E(tt, zero, sc.objects, sc.config, True).fields.E)
         jH = np.asarray(update_H(tt, zero, sc.objects, sc.config, True).fields.H)
@@ -538,14 +631,21 @@ def forced(rng):
     p2 = rng.shuffle(p2)
     p2[b] = rng.choice([("pml", "none"), ("pec", "pml"), ("pml", "pmc")])
     p3 = rng.shuffle([("pec", "pmc"), ("periodic", "periodic"), rng.choice([("none", "pmc"), ("pec", "none"), ("pmc", "pmc")])])
+    p4 = rng.shuffle([("periodic", "periodic"), ("none", "none"), rng.choice([("pec", "none"), ("none", "pmc")])])
     return [
         dict(pairs=p1, sources=["uniform", "dipole_e"], src_axis=[a, None], src_dir=["+", None], mat_mode="arrays",
              eps_tier=9, sig_e_full=True, mu_tier=rng.choice([0, 3]), sig_h_full=False, nonuniform=False),
         dict(pairs=p2, sources=["gauss", rng.choice(["dipole_e", "dipole_m"])], src_axis=[b, None], src_dir=["-", None],
              mat_mode="arrays", eps_tier=rng.choice([1, 3]), sig_e_full=False, mu_tier=9, sig_h_full=True),
-        dict(pairs=p3, sources=[rng.choice(["uniform", "gauss"]), rng.choice(["dipole_e", "dipole_m"])],
-             mat_mode="arrays", eps_tier=3, mu_tier=3, sig_e_full=False, sig_h_full=False, nonuniform=rng.chance(0.5),
-             init_fields=True),
+        # materials through the public Material API, diagonal tier (so the model comparison applies): a box with diagonal
+        # permittivity and an electric conductivity whose ONLY non-zero entry is one diagonal component (which one: from the
+        # seed; the three orientations put it on xx, yy and zz), and the magnetic analogue
+        dict(pairs=p3, sources=["dipole_e", "dipole_m"], mat_mode="boxes", boxes=["diag_sig_e", "diag_sig_h"],
+             sig_e_full=False, sig_h_full=False, nonuniform=rng.chance(0.5), init_fields=True),
+        # … and full-tensor Materials with a lone off-diagonal entry (permittivity, sigma_E, sigma_H), tiny scene
+        dict(pairs=p4, sources=[rng.choice(["dipole_e", "dipole_m"])], mat_mode="boxes",
+             boxes=["full_eps", "full_sig_e", "full_sig_h"], sig_e_full=False, sig_h_full=False, nonuniform=False, max_n=5,
+             init_fields=False),
     ]
 
 
@@ -563,6 +663,12 @@ def counters(c):
             d[f"plane_axis{s['axis']}{s['direction']}"] = True
     for q in c["detectors"]:
         d["det_" + q["kind"] + ("_reduced" if q["reduce"] else "")] = True
+    for b in c["boxes"]:
+        d["box_" + b["spec"]] = True
+        d["box_form_" + b["form"]] = True
+        for key in ("sig_e", "sig_h"):
+            if b.get(key) is not None:
+                d[f"box_{key}_lone_entry_{int(np.flatnonzero(np.asarray(b[key]))[0])}"] = True
     return d
 
 
@@ -575,14 +681,14 @@ def one_scene(ctx, c0, sample=False):
     ctx.impl_property_evals += 1
     if d:
         ctx.violation(c0, d)
-    if model_ok(c0):
+    if model_ok(c0, results):
         k_model(ctx, c0, per)
         ctx.dist.setdefault("model_compared", {"True": 0})["True"] += 1
 
 
 def run(ctx):
     cases = [gen_case(ctx.rng, ctx.thorough, f) for f in forced(ctx.rng)]
-    n = ctx.scale(3, 24)
+    n = ctx.scale(4, 24)
     while len(cases) < n:
         cases.append(gen_case(ctx.rng, ctx.thorough))
     for i, c in enumerate(cases):
